@@ -653,8 +653,8 @@ def validate_symbolic_names(rep, N):
             except M.NamingConventionError: want = None
             got = '<no path>'
             for pc, nm in paths:
-                ok = z3.simplify(z3.substitute(z3.And(*pc), (iv, z3.IntVal(v))))
-                if z3.is_true(ok):
+                sv = z3.Solver(); sv.add(*pc); sv.add(iv == v)
+                if sv.check() == z3.sat:         # the path taken by number v (paths partition the range)
                     if nm is None: got = None
                     else:
                         got = ''.join(x if isinstance(x, str) else
@@ -707,6 +707,42 @@ def validate_add_layers_120(rep):
     return n
 
 
+def crosshair_start():
+    """Second engine (thorough tier): CrossHair on fix_blockname idempotence,
+    the one C17 obligation it was measured to confirm over all paths."""
+    import os, subprocess, sys
+    here = os.path.dirname(os.path.abspath(__file__))
+    env = dict(os.environ, PYTHONPATH=os.environ.get('PYTOUGH_REPO', '/repo'))
+    try:
+        return subprocess.Popen([sys.executable, '-W', 'ignore', '-m', 'crosshair', 'check', '--per_condition_timeout', '240',
+                                 '--report_all', os.path.join(here, 'c17_crosshair.py')],
+                                stdout=subprocess.PIPE, stderr=subprocess.STDOUT, text=True, env=env, cwd=here)
+    except Exception as ex:
+        return 'not started: %s' % ex
+
+
+def crosshair_collect(proc, rep):
+    if isinstance(proc, str):
+        rep.extra['second_engine'] = dict(engine='CrossHair', result=proc); return
+    try:
+        out, _ = proc.communicate(timeout=400)
+    except Exception:
+        proc.kill(); out = 'timeout'
+    lines = [l for l in out.splitlines() if 'c17_crosshair.py' in l]
+    confirmed = [l for l in lines if 'Confirmed over all paths' in l]
+    errors = [l for l in lines if ': error:' in l]
+    rep.extra['second_engine'] = dict(engine='CrossHair 0.0.110', contract='fix_blockname(fix_blockname(n)) == fix_blockname(n), len(n) == 5, printable ASCII',
+                                      confirmed_over_all_paths=len(confirmed), counterexamples=errors[:3],
+                                      not_confirmed=[l for l in lines if 'Not confirmed' in l][:3] or ([] if confirmed or errors else [out[-300:]]))
+    symx_found = any(f['key'].startswith('fix/fix/idempotent') for r in rep.results for f in r.get('failures', []))
+    if errors and symx_found:
+        rep.extra['second_engine']['agreement'] = 'both engines report a counterexample to fix idempotence'
+    elif errors:
+        rep.harness_error('second engine disagrees (CrossHair counterexample while symx proved the obligation): %s' % errors[0][:300])
+    elif confirmed:
+        rep.validated(len(confirmed))
+
+
 def gen_configs(tier):
     alphas = ['lower', 'upper', 'letters52', 'abc'] + (['scrambled', 'dups', 'atm'] if tier == 'thorough' else [])
     out = []
@@ -742,16 +778,19 @@ def run(tier, seed, rep):
                     tasks.append((task_roundtrip, dict(conv=conv, just=just, alpha=alpha, spaces=spaces, atmos=2, pair='underground', N=N)))
                     tasks.append((task_roundtrip, dict(conv=conv, just=just, alpha=alpha, spaces=spaces, atmos=1, pair='atm-per-column', N=N)))
         tasks.append((task_roundtrip, dict(conv=conv, just='r', alpha='lower', spaces=True, atmos=0, pair='atm-single', N=N)))
-    nwin = 6 if tier == 'quick' else 10
-    nabs = 12 if tier == 'quick' else 40
-    al_alphas = ['lower', 'atm'] if tier == 'quick' else ['lower', 'letters52', 'abc', 'atm']
+    nwin = 6 if tier == 'quick' else 8
+    nabs = 12 if tier == 'quick' else 32
+    # (with a symbolic offset the lower-case alphabet already meets the surface layer name: 'atm' is
+    #  number 1209 / 506, 'at' is 46 / 19; the 3-letter alphabet 'atm' has deep recursion and is thorough only)
+    al_alphas = ['lower'] if tier == 'quick' else ['lower', 'letters52', 'abc', 'atm']
     for conv in range(4):
         for alpha in al_alphas:
             for just in ('r', 'l'):
                 for spaces in (True, False):
                     if conv == 0 and (alpha != al_alphas[0] or not spaces): continue
-                    if tier == 'quick' and just == 'l' and alpha != 'atm': continue
-                    tasks.append((task_addlayers_offset, dict(conv=conv, just=just, alpha=alpha, spaces=spaces, n=nwin, N=N)))
+                    if alpha == 'letters52' and just == 'l': continue
+                    tasks.append((task_addlayers_offset, dict(conv=conv, just=just, alpha=alpha, spaces=spaces,
+                                                              n=5 if alpha == 'letters52' else nwin, N=N)))
         tasks.append((task_addlayers_abstract, dict(conv=conv, n=nabs)))
     for which in ('column', 'node'):
         for conv in ((0, 1) if tier == 'quick' else range(4)):
@@ -759,8 +798,8 @@ def run(tier, seed, rep):
                 for spaces in (True, False):
                     for alpha in (['lower'] if tier == 'quick' else ['lower', 'abc']):
                         if tier == 'quick' and which == 'node' and (just == 'l' or conv == 1): continue
-                        tasks.append((task_newkey, dict(which=which, conv=conv, just=just, alpha=alpha, spaces=spaces,
-                                                        nkeys=2 if tier == 'quick' else 3, N=N)))
+                        nkeys = 3 if (tier == 'thorough' and alpha == 'lower' and which == 'column') else 2
+                        tasks.append((task_newkey, dict(which=which, conv=conv, just=just, alpha=alpha, spaces=spaces, nkeys=nkeys, N=N)))
     for check in ('fix', 'unfix', 'print', 'cycle', 'fixunfixfix', 'valid'):
         tasks.append((task_fix, dict(check=check)))
     for m in (1, 2):
@@ -778,15 +817,17 @@ def run(tier, seed, rep):
     # long tasks first (better packing), seed only permutes within equal weight
     weight = lambda t: 0 if t[0] is task_addlayers_abstract else 1 if t[0] in (task_addlayers_offset, task_mapping, task_newkey) else 2
     order.sort(key=lambda k: weight(tasks[k]))
+    ch = crosshair_start() if tier == 'thorough' else None
     results = report.run_tasks([tasks[k] for k in order])
     rep.add_results(results)
+    if ch is not None: crosshair_collect(ch, rep)
 
     rep.bounds += [
         'generator numbers i, j symbolic in [0, %d] (every capacity limit is crossed: 99, 999, 26+26^2(+26^3), 26^2-1, 26^3-1, 3+9(+27); 52-letter capacities only in the thorough tier)' % N,
         'conventions 0-3 x column/node/layer generator x right/left justification x alphabets %s x spaces allowed / not allowed' % sorted(set(g[3] for g in gens)),
         'round trip: layer and column numbers symbolic in [0, %d]; atmosphere type 0 (single atmosphere column name), 1 (surface layer x every column), 2' % N,
-        'add_layers: window of %d layers with the numbering shifted by a symbolic offset in [0, %d] (offset 0 = real behaviour); abstract injective generator for %d layers' % (nwin, N, nabs),
-        'new_column_name / new_node_name: dictionary of %d symbolic keys over alphabet+blank, start index symbolic in [0, %d]' % (2 if tier == 'quick' else 3, N),
+        'add_layers: window of %d layers (52 letters: 5) with the numbering shifted by a symbolic offset in [0, %d] (offset 0 = real behaviour); abstract injective generator for %d layers' % (nwin, N, nabs),
+        'new_column_name / new_node_name: dictionary of 2 %ssymbolic keys over alphabet+blank, start index symbolic in [0, %d]' % ('(new_column_name, lower case: 3) ' if tier == 'thorough' else '', N),
         'fix / unfix / cycle: all five-character names over printable ASCII 32..126 (superset of letters, digits, blank); valid_blockname over codes 0..127',
         'fix_block_mapping: mappings of 1 and 2 entries of such names' + (', 3 entries whose values need no repair' if tier == 'thorough' else ''),
         'uniqstring: strings of up to %d letters' % (4 if tier == 'quick' else 6),
